@@ -57,6 +57,10 @@ GRIDS = [
     # two rectilinear grids with the same extent and node count, one interior node apart: different data locations
     ("rect_a", fm.RectilinearGrid([np.array([0.0, 1.0, 3.0, 4.0]), np.array([0.0, 1.0, 2.0])])),
     ("rect_b", fm.RectilinearGrid([np.array([0.0, 2.0, 3.0, 4.0]), np.array([0.0, 1.0, 2.0])])),
+    # one geometry under two geographic reference systems that differ in axis order (latitude first / longitude first):
+    # the same numbers are different places
+    ("u34_4326", fm.UniformGrid((3, 4), crs="EPSG:4326")),
+    ("u34_crs84", fm.UniformGrid((3, 4), crs="OGC:CRS84")),
 ]
 GRID_NAMES = [n for n, _ in GRIDS]
 _A = np.zeros((2, 3), dtype=bool)
@@ -204,6 +208,7 @@ def gen_info(rng, producer, adapter, partner=None):
         pg = partner["grid"]
         grid = rng.choice([pg, pg, None] + ([rng.choice(U34)] if pg in U34 else []) + ([7, 8] if pg in (7, 8) else [])
                           + ([12, 13] if pg in (12, 13) else [])
+                          + ([14, 15, 14, 15] if pg in (14, 15) else [])
                           + ([9, 10, 11, pg] if pg in NOGRID1 else []))
         if pg is None:
             grid = rng.choices([0, 1, 2, 3, 4, 6], [10, 40, 15, 10, 10, 5])[0]
@@ -231,7 +236,9 @@ def gen_info(rng, producer, adapter, partner=None):
         elif r < 0.45:
             mask = rng.choice(fits)
     else:
-        grid = rng.choices([None, 0, 1, 2, 3, 4, 5, 6, 7, 8, 9, 10, 11, 12, 13], [22, 10, 28, 12, 8, 8, 4, 6, 5, 5, 4, 4, 3, 5, 5])[0]
+        grid = rng.choices([None, 0, 1, 2, 3, 4, 5, 6, 7, 8, 9, 10, 11, 12, 13, 14, 15], [22, 10, 28, 12, 8, 8, 4, 6, 5, 5, 4, 4, 3, 5, 5, 5, 5])[0]
+        if adapter in ("regrid", "g2v") and grid in (14, 15):
+            grid = 1   # (reference systems behind regridding adapters: pyproj transformations are outside the model)
         if adapter in ("regrid", "g2v") and grid in NOGRID1:
             grid = 0  # (grid-less arrays of rank 1 behind a regridding / grid-to-value adapter: outside the model)
         units = rng.choices([None, 0, 1, 2, 3, 4, 5], [22, 30, 15, 8, 8, 8, 9])[0]
@@ -270,6 +277,10 @@ def gen_case(rng):
         for b in branches:
             if b["adapter"] in ("regrid", "g2v"):
                 b["adapter"] = "scale"
+    if out["grid"] in (14, 15):
+        for b in branches:
+            if b["adapter"] == "regrid":
+                b["adapter"] = "scale"   # (reference systems at regridding adapters are outside the modelled metadata algebra)
     bs = []
     for b in branches:
         ins = [gen_info(rng, False, b["adapter"], partner=out) for _ in range(b["n"])]
@@ -457,6 +468,12 @@ def locations(gid):
     if isinstance(g, fm.NoGrid):
         return ("nogrid", g.dim, tuple(int(x) for x in g.data_shape))
     pts = np.asarray(g.data_points)
+    if getattr(g, "crs", None) is not None:
+        # positions on the globe (longitude, latitude), whatever axis order the reference system writes them in
+        from pyproj import Transformer
+        tr = Transformer.from_crs(g.crs, "OGC:CRS84")
+        pts = np.asarray(list(tr.itransform(pts[:, :2].tolist())))
+        return ("crs",) + tuple(sorted(tuple(np.round(p, 7)) for p in pts))
     return tuple(sorted(tuple(np.round(p, 9)) for p in pts))
 
 
@@ -528,6 +545,10 @@ def oracle(case, impl):
                     if dict((a, b2) for a, b2 in fin["meta"]).get(k) != want and not (v is None and k not in dmeta):
                         return ("fields unset on the consumer carry the producer's values, set fields are kept",
                                 {"where": where, "field": k, "got": fin["meta"], "expected": want})
+        # the mask a producer declares is never changed by the exchange (filling an open grid included)
+        if out_decl["mask"] is not None and impl["out"]["mask"] != out_decl["mask"]:
+            return ("fields set on the producer are kept: the producer's mask is the mask it declared",
+                    {"declared": out_decl["mask"], "after_connect": impl["out"]["mask"], "grid_after_connect": impl["out"]["grid"]})
         # fields unset on the producer carry the first requesting consumer's values (identity branches only)
         first = case["order"][0]
         fb = case["branches"][first[0]]
